@@ -59,6 +59,9 @@ type Config struct {
 	// TrustSigners: the issuing CAs are configured as trusted signature certs
 	// (needed for configured CRLs in mode verify: there is no handshake chain at provisioning).
 	TrustSigners bool `json:"trust_signers,omitempty"`
+	// TrustSiblings: for every issuing CA a certificate with the SAME name and another key (the CA after a re-key)
+	// is configured as trusted signature cert: lists of kind "badsig" (signed with that key) are then authentic
+	TrustSiblings bool `json:"trust_siblings,omitempty"`
 	// T61Names: the issuing CAs' names are TeletexStrings that differ in one Latin-1 character only
 	T61Names bool `json:"t61_names,omitempty"`
 }
@@ -111,8 +114,11 @@ type Event struct {
 	Content Content `json:"content,omitempty"` // origin
 	// restart only: SetSig switches the configured signature_validation_mode to Sig for the new process (a
 	// configuration change across a restart; only used with configured lists)
-	SetSig bool   `json:"set_sig,omitempty"`
-	Sig    string `json:"sig,omitempty"`
+	SetSig bool `json:"set_sig,omitempty"`
+	// restart only: SetTrust switches trusted_signature_certs to "the issuing CAs" (Trust) or to nothing for the new process
+	SetTrust bool   `json:"set_trust,omitempty"`
+	Trust    bool   `json:"trust,omitempty"`
+	Sig      string `json:"sig,omitempty"`
 }
 
 // Spec is a whole history.
@@ -176,7 +182,10 @@ func (m *Model) acceptable(c Content) bool {
 	switch c.Kind {
 	case "good":
 		return true
-	case "badsig", "unknown-signer":
+	case "badsig":
+		// signed by the same-name sibling: authentic iff that certificate is a configured trusted signer
+		return m.sigMode() != "verify" || m.spec.Config.TrustSiblings
+	case "unknown-signer":
 		return m.sigMode() != "verify"
 	}
 	return false // garbage, truncated, critical, httperr, empty: never parseable/acceptable
@@ -482,6 +491,11 @@ func (w *World) opts() world.CRLOpts {
 			o.Trusted = append(o.Trusted, ca.Issuer().Cert)
 		}
 	}
+	if cfg.TrustSiblings {
+		for _, ca := range w.sibling {
+			o.Trusted = append(o.Trusted, ca.Issuer().Cert)
+		}
+	}
 	return o
 }
 
@@ -569,7 +583,7 @@ func Run(spec Spec, x *ev.Ctx, obs Observer) (*Result, error) {
 			nameBase = "t61:" + w.base
 		}
 		w.cas = append(w.cas, pkiWithName(nameBase, i, keys[i]))
-		w.sibling = append(w.sibling, pkiWithName(w.base, i, sib[i]))
+		w.sibling = append(w.sibling, pkiWithName(nameBase, i, sib[i]))
 	}
 	w.other = world.NewSimplePKI(w.base+" unrelated", "rsa2048c", "")
 	m := &Model{spec: &spec, origin: make([]Content, len(spec.CDPs)), proc: make([]cdpState, len(spec.CDPs)), persisted: make([]*[]int, len(spec.CDPs))}
@@ -640,6 +654,9 @@ func Run(spec Spec, x *ev.Ctx, obs Observer) (*Result, error) {
 			m.restart()
 			if e.SetSig {
 				spec.Config.Sig = e.Sig
+			}
+			if e.SetTrust {
+				spec.Config.TrustSigners = e.Trust
 			}
 			if err := provision(); err != nil {
 				return res, fmt.Errorf("event %d (restart): %v", i, err)
